@@ -95,6 +95,13 @@ func hashRec(s string) string {
 	if s == "" {
 		return ""
 	}
+	// canonical form: the same record loaded into a typed or an untyped ExtraData marshals its keys in a different order
+	var v any
+	if json.Unmarshal([]byte(s), &v) == nil {
+		if b, err := json.Marshal(v); err == nil {
+			s = string(b)
+		}
+	}
 	h := sha1.Sum([]byte(s))
 
 	return hex.EncodeToString(h[:8])
@@ -243,6 +250,14 @@ func Accept(ft *FileTrace, counting bool) []Problem {
 	content := ""  // hash of file content, "" = empty or absent
 	var rd, ap Norm
 	for i, n := range ft.Events {
+		if n.Ev == "crash" {
+			// the process is gone: the kernel has released its flock; whatever it had truncated stays truncated
+			if holder == n.A {
+				holder, phase = 0, ""
+			}
+
+			continue
+		}
 		if n.Ev == "lock" {
 			if holder != 0 {
 				add(i, "C14:mutex", fmt.Sprintf("process #%d acquired the status lock while process #%d held it (event %d)", n.A, holder, n.Raw))
@@ -321,6 +336,11 @@ func Accept(ft *FileTrace, counting bool) []Problem {
 					add(i, "C14:stale-load", fmt.Sprintf("Load by process #%d returned a record different from the last one written (event %d)", n.A, n.Raw))
 				}
 				content, known = n.H, true
+			} else if !n.Z && known && content == "" {
+				// the file really is empty (its last writer died between truncate and write): not a torn read
+				phase = "loaded"
+
+				break
 			} else if !n.Z {
 				add(i, "C14:torn-load", fmt.Sprintf("Load by process #%d failed to parse the record (event %d)", n.A, n.Raw))
 			} else if known && content != "" {
@@ -338,6 +358,86 @@ func Accept(ft *FileTrace, counting bool) []Problem {
 	}
 
 	return ps
+}
+
+// WithCrashes returns the events of ft with a "crash" event inserted after the LAST event of every process.
+// Use it for traces recorded until every process was dead (crash experiments): a process that died inside a
+// lock section simply stops emitting, and the next lock event of another process is legitimate only because
+// the kernel released the dead holder's flock. For a process that ended outside a section the marker is a no-op.
+func WithCrashes(ft *FileTrace) []Norm {
+	last := map[int]int{}
+	for i, n := range ft.Events {
+		last[n.A] = i
+	}
+	var out []Norm
+	for i, n := range ft.Events {
+		out = append(out, n)
+		if last[n.A] == i {
+			out = append(out, Norm{Ev: "crash", A: n.A, Own: make([]int, len(n.Own)), Raw: n.Raw})
+		}
+	}
+
+	return out
+}
+
+// UnitRewrites renders the status rewrites of every unit (sf_apply / sf_trunc / sf_write, plus crash markers when
+// crashAware) as the event stream read by specs/WorkUnitTrace.tla. who: "r" runner process, "i" daemon acting for a
+// remote mirror or an in-process unit, "d" daemon otherwise.
+func UnitRewrites(evs []Event, crashAware bool) []map[string]any {
+	runnerPid := map[int64]bool{}
+	for _, e := range evs {
+		if e.Str("ev") == "rn_begin" {
+			runnerPid[e.Int("p")] = true
+		}
+	}
+	type uev struct {
+		m   map[string]any
+		pid int64
+	}
+	perUnit := map[string][]uev{}
+	var order []string
+	for _, e := range evs {
+		ev := e.Str("ev")
+		if ev != "sf_apply" && ev != "sf_trunc" && ev != "sf_write" {
+			continue
+		}
+		f := e.Str("file")
+		if perUnit[f] == nil {
+			order = append(order, f)
+		}
+		who := "d"
+		if runnerPid[e.Int("p")] {
+			who = "r"
+		} else if t := e.Str("type"); t == "remote" || t == "inproc" {
+			who = "i"
+		}
+		m := map[string]any{"ev": strings.TrimPrefix(ev, "sf_"), "who": who, "a": 0, "ost": 0, "osz": 0, "nst": 0, "nsz": 0, "z": false}
+		if ev == "sf_apply" {
+			m["ost"], m["osz"], m["nst"], m["nsz"], m["z"] = e.Int("old_state"), e.Int("old_size"), e.Int("new_state"), e.Int("new_size"), e.Int("fsize") == 0
+		}
+		perUnit[f] = append(perUnit[f], uev{m, e.Int("p")})
+	}
+	var out []map[string]any
+	for _, f := range order {
+		out = append(out, map[string]any{"ev": "reset", "who": "", "a": 0, "ost": 0, "osz": 0, "nst": 0, "nsz": 0, "z": false})
+		actor := map[int64]int{}
+		last := map[int64]int{}
+		for i, u := range perUnit[f] {
+			if actor[u.pid] == 0 {
+				actor[u.pid] = len(actor) + 1
+			}
+			u.m["a"] = actor[u.pid]
+			last[u.pid] = i
+		}
+		for i, u := range perUnit[f] {
+			out = append(out, u.m)
+			if crashAware && last[u.pid] == i {
+				out = append(out, map[string]any{"ev": "crash", "who": "", "a": actor[u.pid], "ost": 0, "osz": 0, "nst": 0, "nsz": 0, "z": false})
+			}
+		}
+	}
+
+	return out
 }
 
 // WriteNorm writes the normalised events as NDJSON (one trace for StatusFileTrace.tla).
